@@ -772,6 +772,11 @@ def judge_decode(driver, ref, got, where, ignored_outcome=("no-answer",), forwar
         ok = got == ("no-answer",)
     elif k == "framing-error":
         ok = got == ("framing-error",) or (got[0] == "raised" and got[1] in ("ResponseError", "BackwardFrameError"))
+        # Property C16 states that the serial gateways (LUBA, SCI) only log a framing-error report: their
+        # receivers recognise the packet as an error and deliver nothing, so send() sees "no answer".
+        # That is accepted here; delivering it as a clean backward-frame value is not.
+        if driver in ("luba", "sci") and got == ("no-answer",):
+            ok = True
     elif k == "forward":
         if forward_seen is None:
             ok = got[0] not in ("backward", "framing-error")
